@@ -30,6 +30,16 @@ pub struct Opts {
     pub cmd: Option<Cmd>,
 }
 
+/// a plain `T` field stays required whatever *conditional* default it carries (only default_value / default_value_os /
+/// default_value_t make it optional)
+#[derive(Parser, Debug)]
+pub struct Cond {
+    #[arg(long)]
+    pub staging: bool,
+    #[arg(long, default_value_if("staging", "true", "stage.example"))]
+    pub host: String,
+}
+
 #[derive(Parser, Debug)]
 pub struct Pos {
     pub first: String,
